@@ -8,21 +8,40 @@ VOC = [b"if", b"else", b"true", b"not", b"anyof", b"hasflag", b'"a"', b"stop", b
 PRE = b'require ["imap4flags"];\n'
 
 
+def live_vocab():
+    """structural tokens plus the name of every live command that takes tests, owns a block or re-assigns its arguments"""
+    voc = list(VOC)
+    exts = {"imap4flags"}
+    try:
+        table = json.load(open(os.path.join(VERIF, ".cache", "generated.json")))["table"]
+        for d in table:
+            hosts = any(t in ("test", "testlist") for a in d["args"] for t in a["types"])
+            if hosts or d["acceptChildren"] or d["nonDet"]:
+                n = d["name"].encode()
+                if n not in voc:
+                    voc.append(n)
+                if d.get("extension"):
+                    exts.add(d["extension"])
+    except Exception:  # noqa
+        pass
+    pre = b"require [" + b",".join(b'"%s"' % e.encode() for e in sorted(exts)) + b"];\n"
+    return voc[:30], pre
+
+
 def lean(chunk):
     return run_driver(["parse " + hx(t) for t in chunk])
 
 
-def main():
-    depth = int(sys.argv[1]) if len(sys.argv) > 1 else 8
-    cap = int(sys.argv[2]) if len(sys.argv) > 2 else 1500000
+def search(depth, cap, verbose=False):
     r = random.Random(int(os.environ.get("VERIF_SEED", "0")))
+    voc, pre = live_vocab()
     live = [()]
     bad = []
     for d in range(1, depth + 1):
-        cands = [p + (v,) for p in live for v in VOC]
+        cands = [p + (v,) for p in live for v in voc]
         if len(cands) > cap:
             cands = r.sample(cands, cap)
-        texts = [PRE + b" ".join(c) for c in cands]
+        texts = [pre + b" ".join(c) for c in cands]
         cs = corr_parse.chunks(texts, corr_parse.NPROC * 4)
         res = [x for c in corr_parse.pool().map(lean, cs) for x in c]
         live = []
@@ -31,12 +50,22 @@ def main():
                 bad.append((c, a))
             elif corr_parse.is_live(a):
                 live.append(c)
-        print("depth", d, "cands", len(cands), "live", len(live), "bad", len(bad), flush=True)
+        if verbose:
+            print("depth", d, "cands", len(cands), "live", len(live), "bad", len(bad), flush=True)
         if bad:
             break
+    out = []
     for c, a in bad[:10]:
-        t = PRE + b" ".join(c)
-        print(t, a, "| impl:", pyref.parse_answer(t)[:200])
+        t = pre + b" ".join(c)
+        out.append((t, a, pyref.parse_answer(t)))
+    return out
+
+
+def main():
+    depth = int(sys.argv[1]) if len(sys.argv) > 1 else 8
+    cap = int(sys.argv[2]) if len(sys.argv) > 2 else 1500000
+    for t, a, i in search(depth, cap, verbose=True):
+        print(t, a, "| impl:", i[:200])
 
 
 if __name__ == "__main__":
